@@ -148,7 +148,7 @@ pub fn run(engine: &str, prop: &str, path: &str, v: &Value) -> i32 {
             verdict(prop, path, twice(&|| {
                 let exe = std::env::current_exe().unwrap();
                 let mut cmd = std::process::Command::new(exe);
-                cmd.args(["c16-scenario", &child, &pad.to_string(), if big { "1" } else { "0" }]);
+                cmd.args(["c16-scenario", &child, &pad.to_string(), if big { "1" } else { "0" }, &case["stderr_bytes"].as_u64().unwrap_or(0).to_string()]);
                 let (done, kind, secs) = run_with_watchdog(cmd, std::time::Duration::from_secs(10));
                 println!("  terminated={} result={} after {:.2}s", done, kind, secs);
                 if !done {
